@@ -468,3 +468,123 @@ Example C03_fileserver_never_serves_internal_nonvacuous :
   fs_serve [bs "/f.txt.gz"%string] [] [bs ".gz"%string] files dirs (bs "/x/../f.txt"%string) = Some (bs "/f.txt"%string) /\
   fs_serve [] [] [bs ".gz"%string] files dirs (bs "/f.txt"%string) = Some (bs "/f.txt.gz"%string).
 Proof. vm_compute. auto. Qed.
+
+(* ====================================================================================
+   BLOCK: a server block with several addresses — every address is protected like a single site
+   ==================================================================================== *)
+
+(* casket.executeDirectives runs each directive's setup once per key of the block, each on that
+   key's own SiteConfig: for ANY directive list, block and number of addresses, every address ends
+   with exactly the state (hide lists, Internal paths, BasicAuth rules) a single-address site gets *)
+Theorem C03_block_addresses_same_protection : forall dirs b n,
+  length (block_setups dirs b n) = n /\
+  (forall j st, nth_error (block_setups dirs b n) j = Some st -> st = addr_run dirs b) /\
+  (forall j, (j < n)%nat -> nth_error (block_setups dirs b n) j = Some (addr_run dirs b)).
+Proof. exact block_addresses_same. Qed.
+Print Assumptions C03_block_addresses_same_protection.
+
+(* and that state's hide lists are those of the HIDE theorems (run_setups) *)
+Theorem C03_block_address_is_single_site : forall dirs b,
+  as_setup (addr_run dirs b) = run_setups dirs (bk_hide b).
+Proof. exact addr_run_setup. Qed.
+Print Assumptions C03_block_address_is_single_site.
+
+(* hence, in plugin.go's order, on EVERY address of the block: the internal paths are on the file
+   server's and on browse's hide list, the Internal middleware is installed with them, and the
+   basicauth rules are the block's *)
+Theorem C03_block_protection_on_every_address : forall b ps n j st,
+  hs_internal (bk_hide b) = Some ps ->
+  nth_error (block_setups gen_directives b n) j = Some st ->
+  incl ps (ss_hidden (as_setup st)) /\
+  (hs_browse (bk_hide b) = true -> exists h, ss_browse (as_setup st) = Some h /\ incl ps h) /\
+  as_internal st = Some ps /\ as_rules st = bk_rules b.
+Proof. exact block_protection_on_every_address. Qed.
+Print Assumptions C03_block_protection_on_every_address.
+
+Example C03_block_protection_on_every_address_nonvacuous :
+  let b := {| bk_hide := {| hs_initial := []; hs_internal := Some [bs "/int"%string]; hs_browse := true |}; bk_rules := None |} in
+  exists st, nth_error (block_setups gen_directives b 3) 2 = Some st /\
+             ss_browse (as_setup st) = Some [bs "/int"%string] /\ as_internal st = Some [bs "/int"%string].
+Proof. eexists. split; [vm_compute; reflexivity|split; reflexivity]. Qed.
+
+(* the judge of a block case looks the hide lists up at (n, j): they are the single site's *)
+Theorem C03_block_hide_state : forall n j s, (j < n)%nat -> hide_state (Some (n, j)) s = hide_state None s.
+Proof. exact block_hide_state. Qed.
+Print Assumptions C03_block_hide_state.
+
+(* it is the per-key execution that gives it: were internal's append done under
+   c.OncePerServerBlock, the second address would run Internal but hide nothing *)
+Theorem C03_block_once_variant_refuted : exists b ps n j st,
+  hs_internal (bk_hide b) = Some ps /\ ps <> [] /\
+  nth_error (block_setups_once gen_directives b n) j = Some st /\
+  as_internal st = Some ps /\ ss_hidden (as_setup st) = [] /\ ss_browse (as_setup st) = Some [].
+Proof. exact block_once_variant_refuted. Qed.
+Print Assumptions C03_block_once_variant_refuted.
+
+(* ====================================================================================
+   CRED: htpasswd-file rules — the credential check is a pure function of the request's
+   credentials and the files as they were when the site was last set up
+   ==================================================================================== *)
+
+(* what GetHtpasswdMatcher hands out, whatever the process-wide cache holds (as long as it is
+   honest), is file_accepts on the file's text: (file contents, user, password) decide *)
+Theorem C03_matcher_is_pure : forall H (d : disk) c fname user f used m c',
+  cache_honest c d -> stamps_known used c d -> assoc fname d = Some f ->
+  get_matcher H d c fname user = (m, c') ->
+  matcher_ok H (df_text f) user m /\ cache_honest c' d /\ stamps_known used c' d.
+Proof. exact get_matcher_spec. Qed.
+Print Assumptions C03_matcher_is_pure.
+
+(* over ALL sequences of requests, file replacements and restarts, for all hash functions, rule lists
+   and server states the code can be in: every request is decided as pure_decide decides it from its
+   own credentials and the files loaded at the last successful setup — no earlier request, login,
+   refusal or older version of a file has any influence.  Hypothesis: a rewritten file never comes
+   back with a stamp (mtime, size) it already had (fresh_stamps). *)
+Theorem C03_credential_check_is_stateless : forall evs H cs rs s used,
+  srv_ok H rs used s -> fresh_stamps used evs ->
+  srv_run H cs rs s evs = ref_run H cs rs (sv_disk s) (sv_loaded s) evs.
+Proof. exact credential_check_is_stateless. Qed.
+Print Assumptions C03_credential_check_is_stateless.
+
+(* the same for a site just started with an empty cache (what a CSeq case runs) *)
+Theorem C03_credential_check_stateless_from_start : forall H cs rs d0 ls c evs,
+  setup_rules H d0 [] rs = (Some ls, c) -> fresh_stamps (stamps_of d0) evs ->
+  srv_run H cs rs {| sv_disk := d0; sv_cache := c; sv_live := ls; sv_loaded := d0 |} evs = ref_run H cs rs d0 d0 evs.
+Proof. exact credential_check_stateless_from_start. Qed.
+Print Assumptions C03_credential_check_stateless_from_start.
+
+Example C03_credential_check_is_stateless_nonvacuous :
+  let H := tbl_hashes [] in
+  let rs := [ {| cr_resources := [bs "/a"%string]; cr_exclude := []; cr_user := bs "alice"%string; cr_pw := PwFile (bs "f"%string) |};
+              {| cr_resources := [bs "/b"%string]; cr_exclude := []; cr_user := bs "bob"%string; cr_pw := PwFile (bs "f"%string) |} ] in
+  let d0 := [ (bs "f"%string, {| df_stamp := 1; df_text := bs "alice:pa
+bob:pb"%string |}) ] in
+  let evs := [ EReq false (bs "/a/x"%string) (Some {| c_user := bs "alice"%string; c_pw := bs "pa"%string |});
+               EReq false (bs "/b/x"%string) (Some {| c_user := bs "bob"%string; c_pw := bs "pa"%string |});
+               EWrite (bs "f"%string) {| df_stamp := 2; df_text := bs "alice:pb
+bob:pa"%string |}; EReload;
+               EReq false (bs "/b/x"%string) (Some {| c_user := bs "bob"%string; c_pw := bs "pa"%string |});
+               EReq false (bs "/a/x"%string) (Some {| c_user := bs "alice"%string; c_pw := bs "pa"%string |}) ] in
+  fresh_stamps (stamps_of d0) evs /\
+  ref_run H false rs d0 d0 evs = [Pass; Deny401; Pass; Deny401].
+Proof. split; [|vm_compute; reflexivity]. simpl. split; [|exact I]. intros [E|[]]. discriminate E. Qed.
+
+(* the hypothesis is needed: a file replaced under the stamp it had is answered from the old parse *)
+Theorem C03_credential_check_stale_stamp_refuted : exists H cs rs d0 evs,
+  match setup_rules H d0 [] rs with
+  | (Some ls, c) => srv_run H cs rs {| sv_disk := d0; sv_cache := c; sv_live := ls; sv_loaded := d0 |} evs
+                    <> ref_run H cs rs d0 d0 evs
+  | (None, _) => False
+  end.
+Proof. exact stale_stamp_refuted. Qed.
+Print Assumptions C03_credential_check_stale_stamp_refuted.
+
+(* and the pure decision refuses a password that no protecting rule of the user NAMED accepts,
+   whoever else's password it is and whatever that other user did before *)
+Theorem C03_password_of_another_user_refused : forall H d rs cs path a,
+  (exists r, In r rs /\ protects cs path (pure_rule H d (Some a) r) = true) ->
+  (forall r, In r rs -> protects cs path (pure_rule H d (Some a) r) = true ->
+             cr_user r = c_user a -> pure_accept H d r (c_pw a) = false) ->
+  pure_decide H d rs cs false path (Some a) = Deny401.
+Proof. exact password_of_another_user_refused. Qed.
+Print Assumptions C03_password_of_another_user_refused.
